@@ -360,9 +360,64 @@ def oracle_purity(c):
     return {"nt": bool(others), "cls": [c["kind"], "liesel" if c["liesel"] else "dict"]}
 
 
+# ------------------------------------------------------------------------------ library Gibbs kernels read the incoming state, not the build-time model
+def gen_gibbs_state():
+    from hypothesis import strategies as st
+
+    return st.fixed_dictionaries({"seed": st.integers(0, 10**6), "a": st.sampled_from([0.5, 2.0]), "b0": st.sampled_from([0.5, 1.0]), "b1": st.sampled_from([20.0, 50.0]),
+                                  "which": st.sampled_from(["b", "a", "beta"])})
+
+
+def oracle_gibbs_state(c):
+    """a predecessor kernel that owns a hyperparameter (or the coefficients) changes it in the model state; the smoothing-variance Gibbs kernel
+    must then draw from the conditional given THAT value (same key: the draw scales with b + beta'K beta / 2)"""
+    from liesel.model import DistRegBuilder
+    from liesel.model.distreg import tau2_gibbs_kernel
+
+    rng = np.random.default_rng([c["seed"], 99])
+    n, d = 6, 4
+    D = np.diff(np.eye(d), axis=0)
+    K = (D.T @ D).astype(np.float32)
+    b = DistRegBuilder()
+    b.add_response(rng.normal(size=n).astype(np.float32), tfd.Normal)
+    b.add_predictor("loc", tfb.Identity)
+    b.add_predictor("scale", tfb.Exp)
+    b.add_np_smooth(rng.normal(size=(n, d)).astype(np.float32), K, c["a"], c["b0"], "loc")
+    b.add_p_smooth(np.ones((n, 1), dtype=np.float32), 0.0, 10.0, "scale")
+    model = b.build_model()
+    group = model.groups()["loc_np0"]
+    ker = tau2_gibbs_kernel(group)
+    iface = gs.LieselInterface(model)
+    ker.set_model(iface)
+    tname, bname, aname, betaname = group["tau2"].name, group["b"].name, group["a"].name, group["beta"].name
+    beta = rng.normal(size=d).astype(np.float32)
+    s0 = iface.update_state({betaname: jnp.asarray(beta)}, model.state)
+    key = jax.random.PRNGKey(c["seed"])
+    quad = float(beta.astype(np.float64) @ K.astype(np.float64) @ beta.astype(np.float64))
+    if c["which"] == "b":
+        s1 = iface.update_state({bname: jnp.float32(c["b1"])}, s0)
+        exp_ratio = (c["b1"] + 0.5 * quad) / (c["b0"] + 0.5 * quad)
+    elif c["which"] == "beta":
+        s1 = iface.update_state({betaname: jnp.asarray(3.0 * beta)}, s0)
+        exp_ratio = (c["b0"] + 4.5 * quad) / (c["b0"] + 0.5 * quad)
+    else:
+        s1 = iface.update_state({aname: jnp.float32(c["a"] + 3.0)}, s0)
+        exp_ratio = None
+    d0 = float(ker.transition(key, {}, s0, None).model_state[group["tau2"].value_node.name].value)
+    d1 = float(ker.transition(key, {}, s1, None).model_state[group["tau2"].value_node.name].value)
+    if exp_ratio is not None:
+        require(abs(d1 / d0 - exp_ratio) <= 1e-3 * exp_ratio, "gibbs-kernel-ignores-value-left-by-predecessor:" + c["which"],
+                f"same key: draw {d0} with the build-time value, {d1} after a predecessor changed {c['which']} (expected ratio {exp_ratio:.4f}); {c}")
+    else:
+        require(d1 != d0, "gibbs-kernel-ignores-value-left-by-predecessor:a", f"draws {d0} vs {d1} after the shape hyperparameter changed from {c['a']} to {c['a'] + 3.0}; {c}")
+    return {"nt": True, "cls": [c["which"]]}
+
+
 SUBS = [
     Sub("composition", oracle, gen=gen, n={"quick": 32, "thorough": 500}, shrink_calls=10, min_per_shard=2, what="probe-wrapped built-in kernels: order, threading, isolation, rejection, coherence"),
     Sub("kernel_purity", oracle_purity, gen=gen_purity, n={"quick": 48, "thorough": 600}, shrink_calls=10,
         what="same key + tuning + incoming model state => same transition, whatever the kernel saw before (no model-dependent caches in kernel states)"),
+    Sub("gibbs_reads_state", oracle_gibbs_state, gen=gen_gibbs_state, n={"quick": 12, "thorough": 100}, shrink_calls=6,
+        what="tau2 Gibbs kernel draws from the conditional given the hyperparameters / coefficients in the incoming state"),
     Sub("order", oracle_order, gen=gen_order, n={"quick": 24, "thorough": 200}, shrink_calls=10, what="deterministic order-sensitive Gibbs kernels with non-alphabetical identifiers"),
 ]
